@@ -334,8 +334,8 @@ def prof_reset(g, tier):
                     regs, addr = [], 0
                     g.reset_names()
                     for size in sizes:
-                        if form == "int" and size > 64 and g.chance(0.5):
-                            continue  # manifest integers are u64; only the DSL carries wider ones
+                        if form == "int" and size > 63 and g.chance(0.5):
+                            continue  # YAML / TOML integers are i64, JSON u64; only the DSL carries wider ones
                         v = good_reset(g, size, bo, bito, form) if form else None
                         regs.append(reset_register(g, "R%d" % size, addr, size, bo, bito, form, v))
                         addr += 1
@@ -346,14 +346,14 @@ def prof_reset(g, tier):
                         addr += 1
                         if g.chance(0.7):
                             f2 = g.pick(["int", "array"])
-                            if f2 == "int" and tgt["size_bits"] > 64:
+                            if f2 == "int" and tgt["size_bits"] > 63:
                                 f2 = "array"
                             v = good_reset(g, tgt["size_bits"], bo, bito, f2)
                             ov["reset"] = {"int": str(v)} if f2 == "int" else {"array": v}
                         regs.append({"kind": "ref", "name": "Alias%d" % i, "target": tgt["name"], "override": ov})
                     cfg = {"register_address_type": "u16"}
-                    big_int = any("reset" in r and "int" in r.get("reset", {}) and int(r["reset"]["int"]) >= 2 ** 64 for r in regs)
-                    big_int = big_int or any(r["kind"] == "ref" and "int" in r["override"].get("reset", {}) and int(r["override"]["reset"]["int"]) >= 2 ** 64 for r in regs)
+                    big_int = any("reset" in r and "int" in r.get("reset", {}) and int(r["reset"]["int"]) >= 2 ** 63 for r in regs)
+                    big_int = big_int or any(r["kind"] == "ref" and "int" in r["override"].get("reset", {}) and int(r["override"]["reset"]["int"]) >= 2 ** 63 for r in regs)
                     syn = "dsl" if big_int else pick_syntax(g)
                     out.append(case({"config": cfg, "objects": regs}, syn, "reset_ok"))
     # rejected / boundary: one register per device
@@ -369,7 +369,7 @@ def prof_reset(g, tier):
                     for k in highs:
                         good = good_reset(g, size, bo, bito, form)
                         bad = flip_high_bit(g, size, bo, bito, form, good, k)
-                        syn = "dsl" if (form == "int" and bad >= 2 ** 64) else pick_syntax(g, (6, 3, 1, 1))
+                        syn = "dsl" if (form == "int" and bad >= 2 ** 63) else pick_syntax(g, (6, 3, 1, 1))
                         out.append(case({"config": {"register_address_type": "u8"},
                                          "objects": [reset_register(g, "R", 1, size, bo, bito, form, bad)]}, syn, "reset_bad_bit"))
                     if form == "array" and (thorough or g.chance(0.5)):
